@@ -414,15 +414,23 @@ impl<'a, W: Write> Writer<'a, W> {
             return Ok(num_bytes);
         }
 
-        self.codec.compress(&mut self.buffer)?;
+        // Compress a copy: the pending block has to stay as it is until it has been written, so
+        // that a flush which fails can be tried again without compressing the block twice
+        let compressed = if matches!(self.codec, Codec::Null) {
+            None
+        } else {
+            let mut stream = self.buffer.clone();
+            self.codec.compress(&mut stream)?;
+            Some(stream)
+        };
 
         let num_values = self.num_values;
-        let stream_len = self.buffer.len();
+        let stream_len = compressed.as_ref().map_or(self.buffer.len(), Vec::len);
 
         num_bytes += self.append_raw(&num_values.try_into()?, &Schema::Long)?
             + self.append_raw(&stream_len.try_into()?, &Schema::Long)?;
         self.writer
-            .write_all(self.buffer.as_ref())
+            .write_all(compressed.as_deref().unwrap_or(self.buffer.as_ref()))
             .map_err(Details::WriteBytes)?;
         num_bytes += stream_len + self.append_marker()?;
 
